@@ -383,6 +383,10 @@ func (s *Store) LinkSystemCfg(reifiers, prepopulated, nodeReifier bool) *ipld.Li
 	}
 	if reifiers {
 		unixfsnode.AddUnixFSReificationToLinkSystem(&ls)
+		if prepopulated {
+			// registering once more (a second component doing its own set-up) must change nothing
+			unixfsnode.AddUnixFSReificationToLinkSystem(&ls)
+		}
 	}
 	if nodeReifier {
 		ls.NodeReifier = unixfsnode.Reify
